@@ -117,6 +117,7 @@ def cases(draw, tier):
         late["spec"] = None
     elif late:
         pdof[late["dofile"]] = v1
+    if late:
         for i in range(late["pad"]):
             pdof["z%d.do" % i] = {"v": 1, "body": [["dep", 1, ["s0"]], ["out", "stdout"]]}
     proj = {"dirs": [""], "sources": ["s0"], "dofiles": pdof, "targets": cyc + pre + sib, "watch": []}
@@ -214,7 +215,12 @@ def run_case(case, tier):
             out.violation = {"property": "C12", "clause": "abort-instead-of-cycle-error", "step": 0, "detail": ctx,
                              "sig": dict(sig_shape, symptom=hist.panic_sig(text))}
             return out
-        if not identified:
+        if not identified and any(n >= 2 for n in r.tl.starts.values()):
+            # `redo X Y` with Y in X's closure builds Y twice (statement-silent shape, DESIGN section 5): the second
+            # build replaces Y's log, and with it the record of the cycle found during the first one, possibly before
+            # the log viewer got there.  The invocation did fail; what it printed is not judged in this shape.
+            ev["c12:cycle-report-not-judged(a target was built twice: redo X Y with Y below X)"] += 1
+        elif not identified:
             out.violation = {"property": "C12", "clause": "cycle-not-identified", "step": 0, "detail": ctx,
                              "sig": dict(sig_shape, symptom="not-identified")}
         return out
